@@ -70,6 +70,8 @@ class Ref:
         self.scope: t.List[tuple] = []
         self.requested: t.Dict[str, t.Set[tuple]] = {}
         self.rec_of: t.Dict[str, tuple] = {}
+        self.failed_frames: t.List[tuple] = []
+        self.own_failures: t.Set[str] = set()
         self.exec_no = 0
         for n, arg in S.rec_marks(spec):
             self.rec_of[arg['dest']] = (arg['start'], arg['max'])
@@ -120,6 +122,7 @@ class Ref:
                 if nd.get('use_default'):
                     self.defaults.append((n, dict(kwargs), False))
                     return ('ok', ('default', n, tuple(sorted(kwargs.items(), key=lambda kv: kv[0]))))
+                self.own_failures.add(n)
                 return ('fail', frozenset({('node', n, i)}))
             raise AssertionError(oc)
 
@@ -237,6 +240,10 @@ class Ref:
                         self.tags.add('oneof.candidate-none')
                     return r
                 self.maybe |= fr
+                self.failed_frames.append((('oneof', f'{consumer}.{kw}', idx), set(fr)))
+                if any(s_[0] == 'oneof' for s_ in self.scope):
+                    # contained by this one-of, but evaluated inside a candidate of an enclosing/downstream one-of
+                    self.tags.add('oneof.candidate-failed-inside-other-candidate')
                 if any(isinstance(c_, tuple) and c_[0] == 'fatal' for c_ in r[1]):
                     # a BaseException outside Exception is not a candidate failure: it propagates
                     self.tags.add('oneof.fatal-propagates')
@@ -256,6 +263,20 @@ class Ref:
         for n, scopes in self.requested.items():
             if len({tuple(x[:2] for x in sc) for sc in scopes}) > 1:
                 self.tags.add('node-requested-from-two-scopes')
+        def oneof_ids(sc: tuple) -> t.Set[tuple]:
+            return {x[:3] for x in sc if x[0] == 'oneof'}
+        for n in self.own_failures:
+            scopes = self.requested.get(n, set())
+            if any(not oneof_ids(sc) for sc in scopes) and any(oneof_ids(sc) for sc in scopes):
+                # a node the main pipeline needs, which is also inside a one-of candidate's sub-pipeline, fails
+                self.tags.add('oneof.required-node-fails-also-inside-candidate')
+        for scope_id, touched_nodes in self.failed_frames:
+            for n in touched_nodes:
+                others = [sc for sc in self.requested.get(n, set()) if scope_id not in sc]
+                if others and all(oneof_ids(sc) for sc in self.requested.get(n, set())) \
+                        and any({x[1] for x in oneof_ids(sc)} - {scope_id[1]} for sc in others):
+                    # a node needed only inside candidates, by a failed candidate and by a candidate of another one-of
+                    self.tags.add('oneof.failed-candidate-shares-private-node')
         values = {n: v[1] for n, v in self.memo.items() if v[0] == 'ok'}
         return RefResult(outcome=outcome, invocations=self.inv, certain=certain, touched=touched,
                          defaults=self.defaults, tags=self.tags | S.static_tags(self.spec) | structure_tags(self.spec),
